@@ -276,6 +276,20 @@ fn build_runs(thorough: bool, rng: &mut Rng) -> Vec<(RunCfg, Expect)> {
             v.push((c, Expect::SimOnePanics));
         }
     }
+    // simulation, NO timeout: worker 0 is in the middle of a trace that never ends when another worker panics: it must
+    // notice at its next step (not only between traces), and the panic must surface from join
+    for &t in &[2usize, 4] {
+        let mut c = RunCfg::new(
+            ModelSpec { shape: Shape::Chain { fuse: 1500 + rng.below(2000) as u64, spin: 2000 }, seed: 1, props: vec![p(0, 0, 0)], panic_at: None, panic_thread: None },
+            "sim", t,
+        );
+        c.chooser = "lane".into();
+        c.sim_seed = 1 + rng.next() % 1000;
+        c.record = false;
+        c.closure_cap = 4000;
+        c.watchdog_ms = 12_000;
+        v.push((c, Expect::Panic));
+    }
     // one worker panics: bfs / dfs / on-demand must stop everybody (market closed by the unwinding Drop)
     for strat in ["bfs", "dfs", "ondemand"] {
         for &t in &[2usize, 4, 8] {
